@@ -63,3 +63,9 @@
     #[kani::unwind(20)]
     #[kani::stub(crate::link::crc::calc_crc, crate::link::crc::verif_kani_c06_crc::stub_calc_crc)]
     fn vk_c08_writer_l1() { write_contract::<1, 1>(); }
+
+    // @harness ids=C08,C01 tier=quick kind=proof stubs=1 units=transport::real::writer::Writer::write timeout=1500 note="fragment of exactly 249 bytes (one FULL segment: an exact multiple of the segment size must still end with FIN)"
+    #[kani::proof]
+    #[kani::unwind(252)]
+    #[kani::stub(crate::link::crc::calc_crc, crate::link::crc::verif_kani_c06_crc::stub_calc_crc)]
+    fn vk_c08_writer_l249() { write_contract::<249, 1>(); }
